@@ -271,6 +271,29 @@ func runC21(c *Ctx) {
 						}
 						b = b.Succs[0]
 					}
+				} else if len(bad.Preds) == 1 {
+					// the mismatch branch may examine the stream before refusing (an exception
+					// envelope takes precedence): it is a closed region of blocks dominated by
+					// the edge, every return of which carries a non-nil error
+					closed, rets := true, 0
+					for _, b := range pf.Blocks {
+						if !bad.Dominates(b) {
+							continue
+						}
+						for _, s := range b.Succs {
+							if !bad.Dominates(s) {
+								closed = false
+							}
+						}
+						if ret, ok := b.Instrs[len(b.Instrs)-1].(*ssa.Return); ok {
+							rets++
+							ev := ReturnValue(ret, 1)
+							if !DefinitelyNonNilValue(ev) && !u.HasGuardContaining(ret, "("+u.Describe(ev)+" != nil)") {
+								closed = false
+							}
+						}
+					}
+					okM = closed && rets > 0
 				}
 			}
 			r.Check(okM, "R-SCHEMA-CHECK", "parseIPCStream|mismatch-rejected", u.Pos(e.Instr.Pos()), "schema mismatch returns an error", "the schema-mismatch edge does not return a non-nil error")
